@@ -93,13 +93,15 @@ Fixpoint abi_decode (t : aty) (bs : list N) : outcome (aval * list N) :=
               end) ts bs) (fun vr => Ok (VSeq (fst vr), snd vr))
   | AEnum ts =>
     obind (read_n 8 bs) (fun lr =>
-      let tag := N.to_nat (be_val (fst lr)) in
-      (fix pick (ts : list aty) (j : nat) : outcome (aval * list N) :=
-         match ts, j with
-         | t :: _, O => obind (abi_decode t (snd lr)) (fun vr => Ok (VEnum tag (fst vr), snd vr))
-         | _ :: r, S j' => pick r j'
-         | [], _ => Err REVERT0
-         end) ts tag)
+      if be_val (fst lr) <? nlen ts then      (* `_ => __revert(0)` arm, tested before converting the tag to nat *)
+        let tag := N.to_nat (be_val (fst lr)) in
+        (fix pick (ts : list aty) (j : nat) : outcome (aval * list N) :=
+           match ts, j with
+           | t :: _, O => obind (abi_decode t (snd lr)) (fun vr => Ok (VEnum tag (fst vr), snd vr))
+           | _ :: r, S j' => pick r j'
+           | [], _ => Err REVERT0
+           end) ts tag
+      else Err REVERT0)
   end.
 
 Fixpoint dec_fields (ts : list aty) (bs : list N) : outcome (list aval * list N) :=
